@@ -42,6 +42,16 @@ True} per declaring class (explicitly written type defaults next to unspecified 
 attributes) over chain2/chain3/diamond/diamond_tail with skipping classes; block `solo`: every
 constructor attribute of every type overridden ALONE (equal / conflicting / explicitly the type
 default) under parents that specify everything / the core + allow_None=True / the core only.
+
+Creation-route family (task kind `routes`, generator in bounded/c11_routes.py): every class-creation
+route -- class statement, call of the metaclass, ``type(name, bases, ns)``,
+``param.parameterized_class(name, params, bases)``, ``add_parameter`` (the first four also for EVERY
+class of the hierarchy) -- x declarations WITHOUT a default over the constraint lattice of every type
+whose type default is not None (Number, Integer, Magnitude, String, Bytes, List, HookList, Tuple,
+NumericTuple) x {nothing above declares the Parameter (root / below skipping classes), any declaration
+of the family above it}.  The resolver is the same: expected slots and "creation must fail" never
+depend on the route.  Family LST (List / HookList: ``bounds`` = length bounds, type default [],
+instantiate=True by signature) and the types Magnitude / Bytes exist for this family only.
 """
 import copy
 import datetime
@@ -74,6 +84,11 @@ SUPERS = {   # reflexive-transitive "is a" relation of the Parameter types
     'Range': ('Range', 'NumericTuple', 'Tuple', 'Parameter'),
     'DateRange': ('DateRange', 'Range', 'NumericTuple', 'Tuple', 'Parameter'),
     'CalendarDateRange': ('CalendarDateRange', 'Range', 'NumericTuple', 'Tuple', 'Parameter'),
+    # types of the creation-route family (bounded/c11_routes.py) only
+    'Magnitude': ('Magnitude', 'Number', 'Parameter'),
+    'Bytes': ('Bytes', 'Parameter'),
+    'List': ('List', 'Parameter'),
+    'HookList': ('HookList', 'List', 'Parameter'),
 }
 COMMON_SLOTS = ['default', 'doc', '_label', 'precedence', 'instantiate', 'constant', 'readonly',
                 'pickle_default_value', 'allow_None', 'per_instance', 'allow_refs', 'nested_refs']
@@ -90,6 +105,8 @@ EXTRA_SLOTS = {
     'Range': ['length', 'bounds', 'softbounds', 'inclusive_bounds', 'step'],
     'DateRange': ['length', 'bounds', 'softbounds', 'inclusive_bounds', 'step'],
     'CalendarDateRange': ['length', 'bounds', 'softbounds', 'inclusive_bounds', 'step'],
+    'Magnitude': ['bounds', 'softbounds', 'inclusive_bounds', 'step'], 'Bytes': ['regex'],
+    'List': ['bounds'], 'HookList': ['bounds'],
 }
 _RANGE_DEFAULTS = dict(default=None, bounds=None, softbounds=None, inclusive_bounds=(True, True), step=None)
 TYPE_DEFAULTS = {
@@ -103,19 +120,25 @@ TYPE_DEFAULTS = {
     'NumericTuple': dict(default=(0, 0)),
     'Range': dict(_RANGE_DEFAULTS), 'DateRange': dict(_RANGE_DEFAULTS),       # length: always declared (2)
     'CalendarDateRange': dict(_RANGE_DEFAULTS),
+    'Magnitude': dict(default=1.0, bounds=(0.0, 1.0), softbounds=None, inclusive_bounds=(True, True), step=None),
+    'Bytes': dict(default=b'', regex=None),
+    'List': dict(default=[], bounds=(0, None), instantiate=True),       # documented signature of List
+    'HookList': dict(default=[], bounds=(0, None), instantiate=True),
 }
 FAMILY_OF = {'Range': 'RNG', 'DateRange': 'DRG', 'CalendarDateRange': 'DRG',
              'Parameter': 'STR', 'String': 'STR', 'Number': 'NUM', 'Integer': 'NUM',
-             'Selector': 'SEL', 'ListSelector': 'SEL', 'Tuple': 'TUP', 'NumericTuple': 'TUP'}
+             'Selector': 'SEL', 'ListSelector': 'SEL', 'Tuple': 'TUP', 'NumericTuple': 'TUP',
+             'Magnitude': 'NUM', 'Bytes': 'STR', 'List': 'LST', 'HookList': 'LST'}
 FAMILY_TYPES = {'NUM': ('Number', 'Integer'), 'STR': ('Parameter', 'String'),
                 'SEL': ('Selector', 'ListSelector'), 'TUP': ('Tuple', 'NumericTuple'),
-                'RNG': ('Range',), 'DRG': ('DateRange', 'CalendarDateRange')}
+                'RNG': ('Range',), 'DRG': ('DateRange', 'CalendarDateRange'),
+                'LST': ('List', 'HookList')}       # LST: creation-route family only (not in FAMILIES)
 FAMILIES = ('NUM', 'STR', 'SEL', 'TUP', 'RNG', 'DRG')
 OLD_FAMILIES = ('NUM', 'STR', 'SEL', 'TUP')
 ATTR_ORDER = ['default', 'bounds', 'inclusive_bounds', 'step', 'regex', 'objects', 'length',
               'check_on_set', 'allow_None', 'instantiate', 'constant', 'doc', 'label', 'precedence',
               'softbounds', 'readonly', 'per_instance', 'pickle_default_value', 'allow_refs', 'nested_refs']
-HAS_ATTR = {'bounds': ('NUM', 'RNG', 'DRG'), 'inclusive_bounds': ('NUM', 'RNG', 'DRG'),
+HAS_ATTR = {'bounds': ('NUM', 'RNG', 'DRG', 'LST'), 'inclusive_bounds': ('NUM', 'RNG', 'DRG'),
             'step': ('NUM', 'RNG', 'DRG'), 'softbounds': ('NUM', 'RNG', 'DRG'), 'regex': ('STR',),
             'objects': ('SEL',), 'check_on_set': ('SEL',), 'length': ('TUP',)}
 D0, D1, D2, D3, D4, D5, D9 = (datetime.date(2020, 1, k) for k in (1, 2, 3, 4, 5, 6, 10))
@@ -198,7 +221,7 @@ def merge(tname, spec, anc):
             m[s] = len(m['_objects']) != 0
         else:  # pragma: no cover
             raise AssertionError(s)
-    inst = own.get('instantiate', False)
+    inst = own.get('instantiate', TYPE_DEFAULTS[tname].get('instantiate', False))
     if any(mc['instantiate'] is True for _tc, mc in anc):
         inst = True
     m['instantiate'] = inst
@@ -243,9 +266,29 @@ def valid(tname, m):
             return True
         if v is None:
             return an
-        if not isinstance(v, str):
+        if not isinstance(v, bytes if tname == 'Bytes' else str):
             return False
-        return m['regex'] is None or re.match(m['regex'], v) is not None
+        if m['regex'] is None:
+            return True
+        try:
+            return re.match(m['regex'], v) is not None
+        except TypeError:          # a str pattern inherited by a Bytes (or the reverse) matches no value
+            return False
+    if fam == 'LST':
+        if v is None:
+            return an
+        if not isinstance(v, list):
+            return False
+        if tname == 'HookList' and not all(callable(e) for e in v):
+            return False
+        b = m['bounds']
+        if b is not None:
+            lo, hi = b
+            if lo is not None and not len(v) >= lo:
+                return False
+            if hi is not None and not len(v) <= hi:
+                return False
+        return True
     if fam == 'TUP':
         if v is None:
             return an
@@ -409,12 +452,23 @@ def create(cname, bases, decl, route):
     """Create one class on the real code.  Returns (cls or None, pobj or None, exception or None)."""
     param = _P()
     M = type(param.Parameterized)
+    route = route.rstrip('*')
     if decl is None:
         return M(cname, bases, {}), None, None
     pobj = build_param(decl)
-    if route == 'class':
+    if route in ('class', 'type', 'stmt', 'pclass'):
+        # class: call of the metaclass; type: the three-argument form of the builtin; stmt: a class
+        # statement; pclass: the public helper param.parameterized_class(name, params, bases)
         try:
-            return M(cname, bases, {PNAME: pobj}), pobj, None
+            if route == 'class':
+                return M(cname, bases, {PNAME: pobj}), pobj, None
+            if route == 'type':
+                return type(cname, bases, {PNAME: pobj}), pobj, None
+            if route == 'pclass':
+                return param.parameterized_class(cname, {PNAME: pobj}, bases), pobj, None
+            env = {'bases': bases, 'pobj': pobj, '__name__': 'c11_stmt'}
+            exec('class %s(*bases):\n    %s = pobj\n' % (cname, PNAME), env)
+            return env[cname], pobj, None
         except Exception as e:
             return None, pobj, e
     cls = M(cname, bases, {})
@@ -475,6 +529,9 @@ def check_class(cls, pobj, exc, decl, anc, route, cnt):
         return vios, None
     p = cls.param[PNAME]
     cnt.hit('C11/identity/param[name] is class attribute')
+    if route.rstrip('*') == 'pclass':
+        # the helper may give the class its own Parameter objects: only the binding is demanded
+        pobj = cls.__dict__.get(PNAME)
     if p is not pobj or cls.__dict__.get(PNAME) is not pobj or p.owner is not cls or p.name != PNAME:
         vios.append(('C11/slot/owner', 'param[name] / owner / name not bound to the new class'))
     rs = real_slots(p, tname)
@@ -524,7 +581,10 @@ def run_case(shape, decls, route, cnt=None):
         decl = decls[i]
         dby[cname] = decl
         rbases = tuple(classes[b] for b in bases) or (param.Parameterized,)
-        r = route if i == len(sh) - 1 else 'class'
+        # (a route written with a trailing '*' is used for every declaring class of the hierarchy)
+        r = route if (i == len(sh) - 1 or route.endswith('*')) else 'class'
+        if r.rstrip('*') in ('addp', 'setattr') and i != len(sh) - 1:
+            r = 'class'
         cls, pobj, exc = create(cname, rbases, decl, r)
         if decl is None:
             classes[cname] = cls
@@ -570,8 +630,13 @@ def witness_class(clause, shape, decls, route):
         return route
     if clause.startswith('C11/create/'):
         types = [d[0] for d in decls if d is not None]
-        return '%s|%s' % (fam, 'typechange' if len(set(types)) > 1 else 'sametype')
-    return fam
+        return '%s|%s%s' % (fam, 'typechange' if len(set(types)) > 1 else 'sametype', _route_class(route))
+    return fam + _route_class(route)
+
+
+def _route_class(route):
+    """the creation routes of the route family are reported separately (one witness per route)"""
+    return '' if route in ('class', 'addp', 'setattr') else '|' + route
 
 
 def _shape_reductions(shape, decls):
@@ -605,6 +670,9 @@ def shrink(shape, decls, route, clause):
     changed = True
     while changed:
         changed = False
+        if route.endswith('*') and fails(shape, decls, route[:-1]):
+            route = route[:-1]
+            changed = True
         if route != 'class' and fails(shape, decls, 'class'):
             route = 'class'
             changed = True
@@ -664,7 +732,14 @@ def replay_script(shape, decls, route, clause, at, witness):
             body.append('class %s(%s): pass' % (cname, bl))
             continue
         ptxt = 'param.%s(%s)' % (d[0], ', '.join('%s=%r' % (k, v) for k, v in d[1]))
-        if last and route != 'class':
+        r0 = route.rstrip('*')
+        if r0 in ('type', 'pclass') and (last or route.endswith('*')):
+            btxt = '(%s,)' % bl
+            if r0 == 'type':
+                body.append('%s = type(%r, %s, {%r: %s})' % (cname, cname, btxt, PNAME, ptxt))
+            else:
+                body.append('%s = param.parameterized_class(%r, {%r: %s}, %s)' % (cname, cname, PNAME, ptxt, btxt))
+        elif last and r0 not in ('class', 'stmt'):
             body.append('class %s(%s): pass' % (cname, bl))
             if route == 'addp':
                 body.append('%s.param.add_parameter(%r, %s)' % (cname, PNAME, ptxt))
@@ -677,7 +752,14 @@ def replay_script(shape, decls, route, clause, at, witness):
     lines += ['except Exception as e:', '    raised = e']
     m = merged[at]
     tname = dby[at][0]
-    if clause.startswith('C11/slot/'):
+    if clause == 'C11/slot/owner':
+        lines += [
+            "if raised is not None:", "    print('NOT-REPRODUCED (creation raised %r)' % raised); sys.exit(0)",
+            "p = %s.param[%r]" % (at, PNAME),
+            "if p is not %s.__dict__.get(%r) or p.owner is not %s or p.name != %r:" % (at, PNAME, at, PNAME),
+            "    print('REPRODUCED: %s.param[%r] is not the class attribute bound to %s (owner %%r, name %%r)' %% (p.owner, p.name))" % (at, PNAME, at),
+            "    sys.exit(1)", "print('NOT-REPRODUCED')"]
+    elif clause.startswith('C11/slot/'):
         slot = clause.split('/')[-1]
         lines += [
             "if raised is not None:", "    print('NOT-REPRODUCED (creation raised %r)' % raised); sys.exit(0)",
@@ -1240,6 +1322,10 @@ def _work(task):
     elif kind == 'solo':
         _, fam, tier, seed, part, nparts = task
         solo_block(fam, tier, seed, res, part, nparts)
+    elif kind == 'routes':
+        from bounded import c11_routes
+        _, fam, tier, seed, part, nparts = task
+        c11_routes.block(fam, tier, seed, res, part, nparts)
     else:
         _, fam, tier, seed, part, nparts, total = task
         random_block(fam, tier, seed, res, part, nparts, total)
@@ -1279,7 +1365,14 @@ def make_tasks(tier, seed):
         for p in range(rparts):
             tasks.append(('random', fam, tier, seed, p, rparts,
                           total if fam in OLD_FAMILIES else total // 2))
+    from bounded import c11_routes
+    tasks.extend(c11_routes.tasks(tier, seed))      # every creation route x declarations without default
     return tasks
+
+
+def _routes_bound(tier, seed):
+    from bounded import c11_routes
+    return c11_routes.bound_text(tier, seed)
 
 
 def _run(tier, seed):
@@ -1298,7 +1391,7 @@ def _run(tier, seed):
              'valid(merged).  Distinct = distinct (shape, route, declarations); non-trivial = the tested '
              'class declares and some class of its MRO declares too.  Declarations that are not '
              'individually constructible are out of scope.',
-        bound=bound_text(tier, seed))
+        bound=bound_text(tier, seed) + '; ' + _routes_bound(tier, seed))
     B.exhaustive = False
     tasks = make_tasks(tier, seed)
     if tier == 'smoke':            # development aid (mutation checks): a fifth of the quick tasks
